@@ -12,8 +12,8 @@ import (
 
 func init() {
 	register(&Prop{
-		ID:    "C03",
-		Title: "A subscriber's folded view converges to the store's state",
+		ID:          "C03",
+		Title:       "A subscriber's folded view converges to the store's state",
 		Explanation: "R03.1 in both onUpdate functions the bus listener is registered while the lock that covered the snapshot is still held (no commit can fall between snapshot and registration). R03.2 Value.Pull, Collection.Pull and Collection.PullID reach Bus.Listen synchronously on every path before they return. R03.3 from the commit of a write to the Bus.Send that publishes it a lock that serialises writers is held continuously (holds for Collection.Delete; Value.set and Collection.Update publish after releasing the lock: recorded known findings F-3a/b). R03.4 the published change carries GetAndUpdate's new (and old) value and the id the item was saved under. R03.5 no seed event can be sent after the update loop started. R03.6 the listener registry is accessed under its lock and delivery iterates a copy. R03.7 PullID forwards exactly the events of its (intercepted) id and ends on REMOVE. R03.9/R03.10 every committed write publishes exactly one event and queued events merge by the documented table. R03.11 the event object shared by all subscribers is never written by the forwarding code. Does NOT decide convergence itself, interleavings inside Bus.Send across listeners, or consumer pacing.",
 		Assumptions: []string{"Bus.Send delivers synchronously to listeners registered before it copied the registry"},
 		Run:         runC03,
@@ -455,8 +455,9 @@ func r035(c *an.Ctx, rule string) {
 	}
 }
 
-func r037(c *an.Ctx) {
-	const rule = "R03.7"
+func r037(c *an.Ctx) { r037as(c, "R03.7", "R03.7") }
+
+func r037as(c *an.Ctx, rule, seedRule string) {
 	fn := mustFunc(c, rule, resPkg, "Collection", "PullID")
 	if fn == nil {
 		return
@@ -531,6 +532,26 @@ func r037(c *an.Ctx) {
 				_, _, ft, okt := an.FieldOf(fields["ChangeTime"])
 				c.Check(okv && fv == "NewValue" && okt && ft == "ChangeTime", rule, fmt.Sprintf("%s|send#%d forwards the event's value and time", name, i+1), s.Instr.Pos(),
 					"Value = change.NewValue, ChangeTime = change.ChangeTime", "the forwarded ValueChange does not carry the event's NewValue and ChangeTime")
+				// seed flags: the item's seed value is the only one this subscription gets, so it is also the last one -
+				// wherever the id sorts among the collection's seed events (only the collection's final seed event carries
+				// the collection's last-seed flag)
+				_, _, fs, oks := an.FieldOf(fields["SeedValue"])
+				lastOK := false
+				if lv := fields["LastSeedValue"]; lv != nil {
+					if _, _, fl, okl := an.FieldOf(lv); okl && fl == "SeedValue" {
+						lastOK = true
+					}
+					if b, isC := an.ConstBool(lv); isC && b {
+						// a constant true is right when the send is only reached for seed events
+						for _, e := range an.GuardingEdges(s.Instr) {
+							if _, _, fg, okg := an.FieldOf(e.If.Cond); okg && fg == "SeedValue" && e.Branch {
+								lastOK = true
+							}
+						}
+					}
+				}
+				c.Check(oks && fs == "SeedValue" && lastOK, seedRule, fmt.Sprintf("%s|send#%d the item's seed value is flagged as the last seed", name, i+1), s.Instr.Pos(),
+					"SeedValue = change.SeedValue, LastSeedValue = change.SeedValue", "the forwarded ValueChange takes its last-seed flag from the collection's event (or drops the seed flag): only the id that sorts last in the collection gets LastSeedValue, so a single-item subscriber waiting for the end of the seed never sees it")
 			}
 		}
 	}
